@@ -16,6 +16,10 @@ MCNameOf == [x \in NodeIds \cup LinkIds \cup OrigIds \cup DestIds |->
                  [] x \in OrigIds -> (IF x = "o1" THEN "O" ELSE "R")
                  [] x \in DestIds -> "D"]
 
+\* the invalidation table extracted from the implementation's decorators by the harness (empty file name: the transcription)
+MCInvalTable == IF IOEnv.INVAL_FILE = "" THEN <<>>
+                ELSE LET j == JsonDeserialize(IOEnv.INVAL_FILE) IN [op \in DOMAIN j |-> {j[op][i] : i \in DOMAIN j[op]}]
+
 VARIABLES S, res, hist, depth
 vars == <<S, res, hist, depth>>
 View == S
@@ -65,13 +69,33 @@ NearCalls == {<<"add_node", n>> : n \in NodeIds}
 
 Calls == CASE Profile = "cache" -> SingleMut \cup ReadCalls \cup ViewCalls \cup BulkCalls \cup FewPaths
            [] Profile = "near" -> NearCalls
+           [] Profile = "ind" -> SingleMut \cup ReadCalls \cup BulkCalls \cup FewPaths
            [] Profile = "valid" -> SingleMut \cup ValidPaths
            [] Profile = "path"  -> AllPaths \cup {<<"add_link", "n1", "l1", "n2">>, <<"add_origin", "o1", "n1">>, <<"add_node", "n2">>}
 
 CallEnabled(c) == c[1] \in {"out_links", "in_links"} => c[2] \in Range(S.nodes)
 
+\* profile "ind": the inductive step of CacheCoherent.  Initial states are ALL type-correct states of the universe
+\* whose memoised lookups are coherent (any subset memoised); one further call of any kind must keep every state
+\* coherent.  Together with the empty network being coherent this covers histories of ANY length in this universe.
+RECURSIVE Perms(_)
+Perms(A) == IF A = {} THEN {<<>>} ELSE UNION {{<<a>> \o p : p \in Perms(A \ {a})} : a \in A}
+RECURSIVE InjSeqs(_, _)
+InjSeqs(A, k) == IF k = 0 THEN {<<>>} ELSE InjSeqs(A, k - 1) \cup {Append(p, a) : p \in {q \in InjSeqs(A, k - 1) : Len(q) = k - 1}, a \in A}
+Distinct(p) == \A i, j \in DOMAIN p : p[i] = p[j] => i = j
+IndGraphs ==
+  UNION {UNION {{[nodes |-> ns, edges |-> es, link |-> lk, orig |-> og, dest |-> dg, cache |-> [k \in Lookups |-> Absent]] :
+                   lk \in [Range(es) -> LinkIds],
+                   og \in UNION {[A -> OrigIds] : A \in SUBSET Range(ns)},
+                   dg \in UNION {[A -> DestIds] : A \in SUBSET Range(ns)}}
+                : es \in {p \in InjSeqs(Range(ns) \X Range(ns), MaxPath) : Distinct(p)}}
+         : ns \in UNION {Perms(A) : A \in SUBSET NodeIds}}
+IndStates == {[g EXCEPT !.cache = [k \in Lookups |-> IF k \in M THEN Has(Recompute(g, k)) ELSE Absent]] :
+                g \in IndGraphs, M \in SUBSET Lookups}
+
 Init == /\ res = <<"init">> /\ depth = 0
-        /\ IF Profile = "near"
+        /\ IF Profile = "ind" THEN hist = <<>> /\ S \in IndStates ELSE
+           IF Profile = "near"
            THEN \E i \in DOMAIN Shapes : hist = BaseCalls(Shapes[i]) /\ S = FoldCalls(EmptyState, hist)
            ELSE S = EmptyState /\ hist = <<>>
 Next == \E c \in Calls :
@@ -112,5 +136,5 @@ Check ==
      /\ Assert(WellFormedAccepted(c, res'), <<"C09 WellFormedAccepted violated", hist'>>)
      /\ Assert(allOk => GraphOf(S') = Described(ok), <<"C09 GraphIsDescribed violated", hist'>>)
      /\ Assert(c[1] = "is_valid" => (res'[2] <=> Violated(S) = {}), <<"C06 ValidIff violated", hist'>>)
-Step == Check /\ Emit
+Step == (Profile # "ind" => Check) /\ Emit
 =============================================================================
